@@ -34,6 +34,8 @@ def build(chk):
     c_template_vj(chk)
     c_fastest(chk)
     c_slowest(chk)
+    c_min_velocity(chk)
+    c_init(chk)
 
 
 def c_deflag(chk):
@@ -305,6 +307,131 @@ def c_fastest(chk):
         chk.undecided.append(f"fastestDeflag: path classes missing (early={n_early}, late={n_late})")
     if rets:
         chk.canary("fastestDeflag", rets[-1].pc, Gt(rets[-1].value, vJ), func=fn)
+
+
+def c_min_velocity(chk):
+    """strongestShock(vw): the nucleation temperature of the strongest shock a wall of speed vw can drive: plasma at rest in front of the
+    wall (v+ = 0, so the junction conditions reduce to p+(T+) = p-(T-)) with T- at the bottom of the hydrodynamic range; the result is
+    solveHydroShock(vw, 0, T+) at a converged root T+ of p_high(T+) - p_low(TMinHydro), or 0 if the pressures do not cross in range.
+    minVelocity: root in (vBracketLow, vJ) of strongestShock(vw) - Tnucl with the object's tolerances, or 0 if not bracketed."""
+    H, L = thermo_spec("High"), thermo_spec("Low")
+    reg = eos_registry()
+    SHOCK = specfun("solveHydroShock")
+    reg["Hydrodynamics.solveHydroShock"] = lambda it, so, a, k: SHOCK(a[0], a[1], a[2])
+    vw = real("vw")
+    TminH, TmaxH = real("TMinHydro"), real("TMaxHydro")
+    fn = f"{HY}.strongestShock"
+
+    def mk(it):
+        hy = make_hydro()
+        it.assume(Gt(TminH, 0))
+        it.assume(Lt(TminH, TmaxH))
+        return hy, [vw], {}, {}
+    paths = chk.summarize(MODULE, "Hydrodynamics.strongestShock", mk, registry=reg, externals=stubs.EXTERNALS)
+    kinds = set()
+    for i, p in enumerate(sel(paths)):
+        rs = [e for e in p.events if e.get("kind") == "root_scalar"]
+        if len(rs) != 1:
+            chk.undecided.append("strongestShock: expected one root find")
+            continue
+        e = rs[0]
+        chk.vc(f"strongestShock.bracket-and-residual.{i}", p.pc,
+               And(Eq(e["a"], TminH), Eq(e["b"], TmaxH), Eq(e["generic_f"], H["p"](e["generic_x"]) - L["p"](TminH)),
+                   Eq(e["xtol"], real("atol")), Eq(e["rtol"], real("rtol"))), func=fn)
+        if "root" in e:
+            kinds.add("root")
+            chk.vc(f"strongestShock.result-is-shock-from-plasma-at-rest.{i}", p.pc,
+                   And(e["converged"], Eq(p.value, SHOCK(vw, 0, e["root"])), Eq(H["p"](e["root"]), L["p"](TminH))), func=fn)
+            chk.canary(f"strongestShock.result.{i}", p.pc, Eq(p.value, SHOCK(vw, 1, e["root"])), func=fn)
+        else:
+            kinds.add("zero")
+            chk.vc(f"strongestShock.zero-iff-not-bracketed.{i}", p.pc, And(Eq(p.value, 0), Gt(e["fa"] * e["fb"], 0)), func=fn)
+    for p in sel(paths, "raise"):
+        if p.exc.cls != "WallGoError":
+            chk.undecided.append(f"strongestShock raises {p.exc.cls}")
+    if kinds != {"root", "zero"}:
+        chk.undecided.append(f"strongestShock: path classes {sorted(kinds)}")
+    # minVelocity
+    fn2 = f"{HY}.minVelocity"
+    STRONG = specfun("strongestShock")
+    reg2 = dict(reg)
+    reg2["Hydrodynamics.strongestShock"] = lambda it, so, a, k: STRONG(a[0])
+    Tn, vJ = real("Tnucl"), real("vJ")
+
+    def mk2(it):
+        hy = make_hydro()
+        it.assume(Gt(vJ, sym.R(1, 1000)))
+        it.assume(Lt(vJ, 1))
+        return hy, [], {}, {}
+    paths2 = chk.summarize(MODULE, "Hydrodynamics.minVelocity", mk2, registry=reg2, externals=stubs.EXTERNALS)
+    kinds = set()
+    for i, p in enumerate(sel(paths2)):
+        rs = [e for e in p.events if e.get("kind") == "root_scalar"]
+        if len(rs) != 1:
+            chk.undecided.append("minVelocity: expected one root find")
+            continue
+        e = rs[0]
+        chk.vc(f"minVelocity.bracket-and-residual.{i}", p.pc,
+               And(Eq(e["a"], sym.R(1, 1000)), Eq(e["b"], vJ), Eq(e["generic_f"], STRONG(e["generic_x"]) - Tn),
+                   Eq(e["xtol"], real("atol")), Eq(e["rtol"], real("rtol"))), func=fn2)
+        if "root" in e:
+            kinds.add("root")
+            chk.vc(f"minVelocity.strongest-shock-reaches-Tn.{i}", p.pc, And(e["converged"], Eq(p.value, e["root"]), Eq(STRONG(p.value), Tn)), func=fn2)
+        else:
+            kinds.add("zero")
+            chk.vc(f"minVelocity.zero-iff-not-bracketed.{i}", p.pc, And(Eq(p.value, 0), Gt(e["fa"] * e["fb"], 0)), func=fn2)
+    for p in sel(paths2, "raise"):
+        if p.exc.cls != "WallGoError":
+            chk.undecided.append(f"minVelocity raises {p.exc.cls}")
+    if kinds != {"root", "zero"}:
+        chk.undecided.append(f"minVelocity: path classes {sorted(kinds)}")
+
+
+def c_init(chk):
+    """Hydrodynamics.__init__: the window constants every classification rests on: vJ is findJouguetVelocity() (the template's value only when
+    that raises WallGoError), vMin = max(vBracketLow, minVelocity()), hydrodynamic temperature range = (tmin, tmax) * Tnucl, phase ranges taken
+    from the free-energy objects, flags cleared."""
+    fn = f"{HY}.__init__"
+    tmax, tmin = real("tmax"), real("tmin")
+    vJf, vMinf = real("vJ.found"), real("vMin.found")
+    reg = {"HydrodynamicsTemplateModel.__new__": lambda it, cref, a, k: (it.event(kind="new", cls="template", args=list(a), kwargs=dict(k)),
+                                                                        SymObj("HydrodynamicsTemplateModel", "hydrodynamicsTemplateModel", label="template-new", attrs={"vJ": real("template.vJ")}))[1],
+           "Hydrodynamics.minVelocity": lambda it, so, a, k: (it.event(kind="contract-call", name="minVelocity", vJ=so.attrs.get("vJ"), low=so.attrs.get("vBracketLow")), vMinf)[1]}
+    for vj_ok in (True, False):
+        def fj(it, so, a, k, vj_ok=vj_ok):
+            it.event(kind="contract-call", name="findJouguetVelocity", has_template="template" in so.attrs, Tn=so.attrs.get("Tnucl"))
+            if not vj_ok:
+                raise PyExc("WallGoError", ("no Jouguet velocity",))
+            return vJf
+        reg2 = dict(reg)
+        reg2["Hydrodynamics.findJouguetVelocity"] = fj
+
+        def mk(it):
+            th = make_hydro().attrs["thermodynamics"]
+            hy = SymObj("Hydrodynamics", "hydrodynamics", label="hydro-new")
+            return hy, [th, tmax, tmin, real("rtol"), real("atol")], {}, {"hy": hy, "th": th}
+        rets = sel(chk.summarize(MODULE, "Hydrodynamics.__init__", mk, registry=reg2, record=vj_ok))
+        tag = "vJ-found" if vj_ok else "vJ-from-template"
+        if not rets:
+            chk.undecided.append(f"Hydrodynamics.__init__[{tag}]: no returning path")
+        for i, p in enumerate(rets):
+            a = p.state["hy"].attrs
+            th = p.state["th"]
+            T0 = real("Tnucl")
+            chk.vc(f"Hydrodynamics.__init__.{tag}.vJ.{i}", p.pc, Eq(a["vJ"], vJf if vj_ok else real("template.vJ")), func=fn)
+            mv = [e for e in p.events if e.get("name") == "minVelocity"]
+            chk.vc(f"Hydrodynamics.__init__.{tag}.vMin.{i}", p.pc,
+                   And(sym.to_sym(len(mv) == 1 and mv[0]["vJ"] is a["vJ"] and mv[0]["low"] is not None), Ge(a["vMin"], sym.R(1, 1000)), Ge(a["vMin"], vMinf),
+                       Or(Eq(a["vMin"], sym.R(1, 1000)), Eq(a["vMin"], vMinf)), Eq(a["vBracketLow"], sym.R(1, 1000))), func=fn)
+            chk.vc(f"Hydrodynamics.__init__.{tag}.temperature-range.{i}", p.pc,
+                   And(Eq(a["TMaxHydro"], tmax * T0), Eq(a["TMinHydro"], tmin * T0), Eq(a["Tnucl"], T0),
+                       *[Eq(a[f"T{e}{ph}T"], real(f"T{e}{ph}T")) for ph in ("High", "Low") for e in ("Max", "Min")]), func=fn)
+            fj_calls = [e for e in p.events if e.get("name") == "findJouguetVelocity"]
+            new = [e for e in p.events if e.get("kind") == "new"]
+            chk.vc(f"Hydrodynamics.__init__.{tag}.order-and-flags.{i}", p.pc,
+                   sym.to_sym(bool(len(fj_calls) == 1 and fj_calls[0]["has_template"] and len(new) == 1 and new[0]["args"][0] is th
+                                   and a["thermodynamics"] is th and a["success"] is False and list(a["doesPhaseTraceLimitvmax"]) == [False, False]
+                                   and new[0]["kwargs"].get("rtol") is a["rtol"] and new[0]["kwargs"].get("atol") is a["atol"])), func=fn, kind="frame")
 
 
 def c_slowest(chk):
